@@ -3,10 +3,10 @@
 import json, os, re, glob, sys
 ROOT = "/verif/seeded"
 summary = []
-for d in sorted(glob.glob(ROOT + "/C*-*")):
+for d in sorted(glob.glob(ROOT + "/*-*")):
     name = os.path.basename(d)
     pid = name.split("-")[0]
-    pid = {"R03": "C03", "R05": "C05", "R08": "C08", "R09": "C09", "R15": "C15"}.get(pid, pid)
+    pid = "C" + pid[1:]
     v = open(os.path.join(d, "verify.log")).read() if os.path.exists(os.path.join(d, "verify.log")) else ""
     m = re.search(r"applied=(\d+) build=(\d+) demo_clean=(\d+) demo_mutant=(\d+) suite=(\d+)", v)
     conf = None
